@@ -4,14 +4,13 @@
    reported failure leaves workloads, nodes, capacity and usage as they were.
    Refuted for remove-node (C11_remove_node_refuted: the plugin's removal failing after the store record
    is gone has an empty rollback) and for replace (C11_replace_refuted).  Proved for EVERY world and EVERY
-   fault position: realloc, add-node (fresh name, existing pod), the locked per-workload transactions of
-   remove (records equal up to order) and dissociate; for every fault position on explicit scenarios:
-   set-node (after the repair).  The transaction combinator used by every script is the C17 model
+   fault position: realloc, set-node (after the repair; whole operation), add-node (fresh name, existing pod),
+   the locked per-workload transactions of remove (records equal up to order) and dissociate.  The transaction combinator used by every script is the C17 model
    (C11_txn_is_C17). *)
 From Coq Require Import Bool Arith ZArith.
 From Coq Require Import List Permutation.
 From Verif Require Import Base.Effects Utils.Txn Calcium.World Calcium.Ops Calcium.Run Calcium.EffectsProofs
-  Calcium.OpsProofs Calcium.OpsProofs2 Calcium.Sweeps.
+  Calcium.OpsProofs Calcium.OpsProofs2 Calcium.NodeProofs Calcium.Sweeps.
 
 Theorem C11_realloc_atomic : forall id req w k, wf w ->
   exists w' k' r, crunk (realloc id req) w k = (w', k', r) /\
@@ -48,6 +47,17 @@ Theorem C11_add_node_atomic : forall n p cap w k,
   (r = None -> w' = othn w (nodes w ++ (mkNode n p false true 0 :: nil)) (plugs w ++ (mkPlug n cap rzero :: nil))).
 Proof. exact add_node_atomic. Qed.
 Print Assumptions C11_add_node_atomic.
+
+Theorem C11_set_node_atomic : forall n bypass mem label w k,
+  NoDup (pnames (plugs w)) ->
+  exists w' k' r, crunk (set_node n bypass mem label) w k = (w', k', r) /\
+  (r <> None -> w' = w) /\
+  (r = None -> exists x, find_node w n = Some x /\
+     w' = othnp w (upd_node (mkNode (n_name x) (n_pod x) (match bypass with Some b => b | None => n_bypass x end) (n_avail x)
+                                    (match label with Some l => l | None => n_label x end)) (nodes w))
+                  (upd_plug n (new_cap mem) (plugs w))).
+Proof. exact set_node_atomic. Qed.
+Print Assumptions C11_set_node_atomic.
 
 Theorem C11_set_node_scenarios : forall o, In o setnode_ops -> forall k,
   let '(w', r) := final (script_of o) (prep busy3 o) (Some k) in
